@@ -170,7 +170,7 @@ func (r *recordingTimeValidator) Validate(from, until int64) error {
 	return nil
 }
 
-func signedTail(m int, reveal *string, suffix *string, signedData *string, k *jws.JWK) bool {
+func signedTail(m int, reveal *string, suffix *string, signedData *string, k *jws.JWK, sha512Configured bool) bool {
 	switch m {
 	case 26:
 		*reveal = gen.Reveal(gen.Key("unrelated"), gen.SHA256)
@@ -184,7 +184,7 @@ func signedTail(m int, reveal *string, suffix *string, signedData *string, k *jw
 		return false
 	case 29:
 		*reveal = gen.Reveal(k, gen.SHA512)
-		return false
+		return sha512Configured // valid exactly when SHA-512 is a configured algorithm
 	}
 	return true
 }
@@ -198,6 +198,12 @@ func Harness_C07_Update() {
 	p.MaxOperationSize, p.MaxOperationHashLength, p.MaxDeltaSize = 2500, 100, 1700
 	m := signedMutations[verifrt.Choose("mutation", len(signedMutations))]
 	extra := verifrt.Choose("extra", 3) // 1: next commitment equals current key's commitment
+	nextCode := code
+	if verifrt.Choose("two-algorithms", 2) == 1 {
+		// both algorithms configured (either order); the next commitment may use either of them
+		p.MultihashAlgorithms = [][]uint{{gen.SHA256, gen.SHA512}, {gen.SHA512, gen.SHA256}}[verifrt.Choose("alg-order", 2)]
+		nextCode = []uint{gen.SHA256, gen.SHA512}[verifrt.Choose("next-code", 2)]
+	}
 	k := gen.NewSigner("upd")
 	want := mutateKey(m, k, &p)
 	next := gen.Key("next")
@@ -205,8 +211,12 @@ func Harness_C07_Update() {
 	verifrt.Assume(from > -(1<<62) && from < 1<<62 && until > -(1<<62) && until < 1<<62)
 	suffix := "sfx" + verifrt.AnyAtom("suffix")
 	u := gen.NewUpdate(suffix, code, k, next, from, until, gen.KeyPatch("kp"))
+	if nextCode != code {
+		u.Delta.UpdateCommitment = gen.Commitment(next, nextCode)
+		u.Signed.DeltaHash = gen.ModelHash(u.Delta, code)
+	}
 	if extra == 1 {
-		u.Delta.UpdateCommitment = gen.Commitment(k.JWK, code)
+		u.Delta.UpdateCommitment = gen.Commitment(k.JWK, nextCode)
 		u.Signed.DeltaHash = gen.ModelHash(u.Delta, code)
 		want = false
 	}
@@ -214,7 +224,7 @@ func Harness_C07_Update() {
 	if m == 21 || m == 22 {
 		want = false
 	}
-	want = signedTail(m, &u.Request.RevealValue, &u.Request.DidSuffix, &u.Request.SignedData, k.JWK) && want
+	want = signedTail(m, &u.Request.RevealValue, &u.Request.DidSuffix, &u.Request.SignedData, k.JWK, len(p.MultihashAlgorithms) == 2) && want
 	buf := gen.JSON(u.Request)
 	tv := &recordingTimeValidator{}
 	ns := "did:" + verifrt.AnyAtom("method")
@@ -241,6 +251,11 @@ func Harness_C07_Recover() {
 	p.MaxOperationSize, p.MaxOperationHashLength, p.MaxDeltaSize = 2500, 100, 1700
 	m := signedMutations[verifrt.Choose("mutation", len(signedMutations))]
 	extra := verifrt.Choose("extra", 3) // 1: next recovery commitment = current key's; 2: update commitment = recovery commitment
+	nextCode := code
+	if verifrt.Choose("two-algorithms", 2) == 1 {
+		p.MultihashAlgorithms = [][]uint{{gen.SHA256, gen.SHA512}, {gen.SHA512, gen.SHA256}}[verifrt.Choose("alg-order", 2)]
+		nextCode = []uint{gen.SHA256, gen.SHA512}[verifrt.Choose("next-code", 2)]
+	}
 	k := gen.NewSigner("rec")
 	want := mutateKey(m, k, &p)
 	nextRec, nextUpd := gen.Key("next-rec"), gen.Key("next-upd")
@@ -254,9 +269,12 @@ func Harness_C07_Recover() {
 		r.Signed.AnchorOrigin = verifrt.AnyAtom("origin")
 		origin = r.Signed.AnchorOrigin
 	}
+	if nextCode != code {
+		r.Signed.RecoveryCommitment = gen.Commitment(nextRec, nextCode)
+	}
 	switch extra {
 	case 1:
-		r.Signed.RecoveryCommitment = gen.Commitment(k.JWK, code)
+		r.Signed.RecoveryCommitment = gen.Commitment(k.JWK, nextCode)
 		want = false
 	case 2:
 		r.Signed.RecoveryCommitment = r.Delta.UpdateCommitment
@@ -266,7 +284,7 @@ func Harness_C07_Recover() {
 	if m == 21 || m == 22 {
 		want = false
 	}
-	want = signedTail(m, &r.Request.RevealValue, &r.Request.DidSuffix, &r.Request.SignedData, k.JWK) && want
+	want = signedTail(m, &r.Request.RevealValue, &r.Request.DidSuffix, &r.Request.SignedData, k.JWK, len(p.MultihashAlgorithms) == 2) && want
 	buf := gen.JSON(r.Request)
 	tv := &recordingTimeValidator{}
 	ns := "did:" + verifrt.AnyAtom("method")
@@ -309,7 +327,7 @@ func Harness_C07_Deactivate() {
 	if m == 21 || m == 22 {
 		want = false
 	}
-	want = signedTail(m, &d.Request.RevealValue, &d.Request.DidSuffix, &d.Request.SignedData, k.JWK) && want
+	want = signedTail(m, &d.Request.RevealValue, &d.Request.DidSuffix, &d.Request.SignedData, k.JWK, false) && want
 	buf := gen.JSON(d.Request)
 	tv := &recordingTimeValidator{}
 	ns := "did:" + verifrt.AnyAtom("method")
